@@ -72,21 +72,24 @@ def expected(data, layout, include_empty, dup_mode):
 
 
 def check_names(got_names, want_names, what):
-    """Duplicates renamed to unique names in file order."""
+    """Duplicates renamed to unique names in file order.  Which tier ends up with which name is only pinned
+    where it is unambiguous: the first tier carrying a name keeps it unless that name can also be produced by
+    renaming another tier (a literal 'a_2' next to two tiers 'a'); every result name extends its original."""
     if len(got_names) != len(want_names):
         raise Violation("tier-count", f"{what}: {got_names} from {want_names}")
-    seen = set()
-    for g, w in zip(got_names, want_names):
-        if w not in seen:
-            if g != w:
-                raise Violation("names", f"{what}: first occurrence of {w!r} came back as {g!r}")
-        elif not g.startswith(w) or g == w:
-            raise Violation("names", f"{what}: duplicate of {w!r} renamed to {g!r}")
-        if w in seen:
-            pass
-        seen.add(w)
     if len(set(got_names)) != len(got_names):
         raise Violation("names", f"{what}: names not unique after renaming: {got_names}")
+    seen = set()
+    for i, (g, w) in enumerate(zip(got_names, want_names)):
+        if not g.startswith(w):
+            raise Violation("names", f"{what}: tier {w!r} came back as {g!r}")
+        ambiguous = any(j != i and o != w and w.startswith(o) for j, o in enumerate(want_names))
+        if w not in seen:
+            if g != w and not ambiguous:
+                raise Violation("names", f"{what}: first occurrence of {w!r} came back as {g!r}")
+        elif g == w:
+            raise Violation("names", f"{what}: duplicate of {w!r} kept its name: {got_names}")
+        seen.add(w)
 
 
 def run_case(case):
@@ -125,7 +128,10 @@ def run_case(case):
     want = status[1]
     got = iomodel.tg_to_data(tg)
     if has_dup:
-        check_names([t["name"] for t in got["tiers"]], names, what)
+        try:
+            check_names([t["name"] for t in got["tiers"]], names, what)
+        except Violation as v:
+            raise Violation(f"{v.clause}:{layout}", v.message)
         cl.add("duplicate_renamed")
         for g, w in zip(got["tiers"], want["tiers"]):
             w["name"] = g["name"]
